@@ -145,8 +145,11 @@ func (g *abiGen) gen(depth int, noSelArr, inArr bool) *aty {
 				}
 			}
 		}
+		if k > 3 && estWords(e)*k > 200 {
+			k = 1 + r.Intn(3) // keep encodings small: they grow with the product of the dimensions
+		}
 		t := &aty{kind: 'a', k: k, elem: e}
-		if depth >= 1 && r.Chance(1, 5) {
+		if depth >= 1 && estWords(t) <= 40 && r.Chance(1, 5) {
 			// a second (and sometimes third) array dimension with a different length: T[k][], T[][k], tuple[2][3], ...
 			for d, nd := 0, 1+r.Intn(2); d < nd; d++ {
 				k2 := 0
@@ -350,4 +353,23 @@ func boundaryInt(r *core.Rand, n int) []byte {
 	out := make([]byte, 32)
 	v.FillBytes(out)
 	return out
+}
+
+// estWords: a rough count of the 32-byte words an encoding of t occupies (dynamic dimensions count as 3)
+func estWords(t *aty) int {
+	switch t.kind {
+	case 'a':
+		k := t.k
+		if k == 0 {
+			k = 3
+		}
+		return 1 + k*estWords(t.elem)
+	case 't':
+		n := 0
+		for _, f := range t.fields {
+			n += estWords(f)
+		}
+		return n
+	}
+	return 2
 }
